@@ -211,6 +211,10 @@ func (i *IVFWriter) writeVP8(packet *rtp.Packet, timestamp uint64) error {
 	if _, err := vp8Packet.Unmarshal(packet.Payload); err != nil {
 		return err
 	}
+	if len(vp8Packet.Payload) == 0 {
+		// Header-only packet: nothing to append, and no first octet to inspect.
+		return nil
+	}
 
 	isKeyFrame := (vp8Packet.Payload[0] & 0x01) == 0
 	switch {
